@@ -66,6 +66,7 @@ def main():
     ap.add_argument("--tier", default="quick")
     ap.add_argument("--jobs", type=int, default=4)
     ap.add_argument("--also", default="")
+    ap.add_argument("--tag", default="", help="write results to seeded/results-<tag>.json only (e.g. a run at another VERIF_SEED)")
     a = ap.parse_args()
     ids = sorted(x for x in os.listdir(SEEDED) if os.path.isdir(os.path.join(SEEDED, x)) and os.path.exists(os.path.join(SEEDED, x, "meta.json")))
     if a.only:
@@ -82,6 +83,9 @@ def main():
             print(f"{r['id']:28s} applies={r.get('applies')} suite_green={r.get('suite_green')} demo={r.get('demo_pristine_rc')}/{r.get('demo_patched_rc')} "
                   f"caught_by={caught or 'NONE'} {r.get('error', '')}", flush=True)
     shutil.rmtree(PRISTINE, ignore_errors=True)
+    if a.tag:
+        json.dump(results, open(os.path.join(SEEDED, f"results-{a.tag}.json"), "w"), indent=1)
+        return 0
     path = os.path.join(SEEDED, "results.json")
     prev = {}
     if os.path.exists(path):
